@@ -21,8 +21,11 @@ import (
 func PropC14Live(c *vs.Case, kind string, env *C20Env, drv C20Driver) error {
 	child := c.PickStr("widgets", "configmaps")
 	nOps := 2 + c.Int(4)
+	finalize := c.Bool()
 	var log []string
-	c.Describe(func() any { return map[string]any{"kind": kind, "child": child, "ops": log} })
+	c.Describe(func() any {
+		return map[string]any{"kind": kind, "child": child, "finalizeHook": finalize, "ops": log}
+	})
 	d := env.W.Sim.Def(child)
 	field := "spec"
 	if child == "configmaps" {
@@ -30,6 +33,19 @@ func PropC14Live(c *vs.Case, kind string, env *C20Env, drv C20Driver) error {
 	}
 	env.Router.mu.Lock()
 	env.Router.Answer = func(u string, body map[string]any) map[string]any {
+		if strings.HasSuffix(u, "/finalize") {
+			// the documented contract: ask for nothing and report finalized once nothing is observed any more
+			observed := 0
+			for _, k := range []string{"children", "attachments"} {
+				groups, _ := body[k].(map[string]any)
+				for _, g := range groups {
+					if m, ok := g.(map[string]any); ok {
+						observed += len(m)
+					}
+				}
+			}
+			return map[string]any{"children": []any{}, "attachments": []any{}, "finalized": observed == 0}
+		}
 		if !strings.HasSuffix(u, "/sync") {
 			return nil
 		}
@@ -52,6 +68,9 @@ func PropC14Live(c *vs.Case, kind string, env *C20Env, drv C20Driver) error {
 		env.Router.mu.Unlock()
 	}()
 	spec := c20Spec{Version: 1, Variant: "plain", Parent: "things", Child: child, Valid: true}
+	if finalize {
+		spec.Variant = "finalize"
+	}
 	ctx := context.Background()
 	if kind == "composite" {
 		obj := spec.CompositeObj("live", nil)
@@ -182,6 +201,32 @@ func PropC14Live(c *vs.Case, kind string, env *C20Env, drv C20Driver) error {
 			if n, _ := env.Router.callsAboutSince(prefix, other, since); n > 0 {
 				return vs.Violf("C14/wrong-parent-enqueued", "live controller (%s): %q concerns the child of ns1/%s only, yet the sync hook was called %d time(s) for ns1/%s", kind, what, p, n, other)
 			}
+		}
+	}
+	if finalize {
+		// C10 on the same path: deleting a parent that carries the controller's finalizer wakes it (C14: "or still
+		// carries its finalizer"), the finalize hook is asked, its children go and the parent is let go
+		if !quiet() {
+			return fmt.Errorf("harness: the controller keeps syncing without any change")
+		}
+		if fs, _ := getPath(env.W.Sim.Get("things", "ns1", "p2"), "metadata.finalizers"); fs == nil {
+			return vs.Violf("C10/finalizer-missing", "live controller (%s) with a finalize hook: parent ns1/p2 has been synced but carries no finalizer", kind)
+		}
+		since := time.Now()
+		env.W.Sim.ExtDelete("things", "ns1", "p2", "")
+		log = append(log, "parent-deleted p2")
+		c.Class("live-parent-deleted")
+		fprefix := spec.urlPrefix("live") + "finalize"
+		if !pollFor(5*time.Second, func() bool { n, _ := env.Router.callsAboutSince(fprefix, "p2", since); return n > 0 }) {
+			return vs.Violf("C14/parent-not-enqueued", "live controller (%s): parent ns1/p2 carries the controller's finalizer and was deleted, but the finalize hook was not called within 5 s", kind)
+		}
+		if !pollFor(5*time.Second, func() bool {
+			return env.W.Sim.Get("things", "ns1", "p2") == nil && env.W.Sim.Get(child, "ns1", "p2-c") == nil
+		}) {
+			return vs.Violf("C10/finalization-not-completed", "live controller (%s): the finalize hook asked for no children and answered finalized once it observed none, yet 5 s later parent ns1/p2 (%v) or its child (%v) still exists", kind, env.W.Sim.Get("things", "ns1", "p2") != nil, env.W.Sim.Get(child, "ns1", "p2-c") != nil)
+		}
+		if n, _ := env.Router.callsAboutSince(prefix, "p2", since); n > 0 {
+			return vs.Violf("C10/wrong-hook", "live controller (%s): the sync hook was called %d time(s) for the deleted parent ns1/p2 although a finalize hook is configured", kind, n)
 		}
 	}
 	return nil
